@@ -249,12 +249,43 @@ example : M004.moduleViews = modelViews M004.cfg ∧ M004.moduleWeightNumel = we
   let h := reported_sizes E3nnVerif.Cert.TP.C19.M004.introspection_ok
   ⟨h.2.2.2.2.2, h.2.2.2.2.1⟩
 
+/-- the general-polynomial form of `mask_true_nonzero`, its side condition decided by the kernel -/
+example : ∃ env : ℕ → ℝ, Poly.eval env ((interpPoly M004.prog).getD (1 * totalDim M004.cfg.out + 1) []) ≠ 0 :=
+  mask_true_eval_nonzero E3nnVerif.Cert.TP.C19.M004.introspection_ok (by decide) (by decide) (by decide)
+    (by decide +kernel)
+
+/-- M004, batch row 1, output component 1 is the single monomial `x1[1,3]·x2[1,0]·w[0,1]` (variables 3, 5, 7): the weight
+    `w[0,1]` lies in the slice of instruction `kk = 1`, and the blocks of `x1`, `x2` and of the output are those of
+    instruction 1 -/
+example : ∃ kk x y i j, pathOfWeight M004.cfg 1 = some kk ∧ (insAt M004.cfg kk).hasW = true ∧ InSlice M004.cfg kk 1 ∧
+      ([3, 5, 7] : Mono).Perm [x, y, 7] ∧ x = x1Var M004.cfg 1 i ∧ y = x2Var M004.cfg 1 j ∧ 7 = wVar M004.cfg 0 1 ∧
+      0 = (if M004.cfg.shared then 0 else 1) ∧
+      (insAt M004.cfg kk).i1 = (locate M004.cfg.in1 i).1 ∧ (insAt M004.cfg kk).i2 = (locate M004.cfg.in2 j).1 ∧
+      (insAt M004.cfg kk).io = (locate M004.cfg.out 1).1 :=
+  weight_variable_path E3nnVerif.Cert.TP.C19.M004.introspection_ok (b := 1) (k := 1) (by decide) (by decide)
+    (tm := ([3, 5, 7], [(1, (⟨1, 0⟩ : Q))])) (by decide +kernel) (by decide) (w := 7) (by decide) rfl
+
+/-- the reported view of instruction 1 of M004 is the model's slice `[0, 2)`; the empty instructions report `(k, 0, 0)` -/
+example : 1 < M004.cfg.ins.length ∧ (insAt M004.cfg 1).hasW = true ∧ 2 = pathSize M004.cfg (insAt M004.cfg 1) ∧
+      0 = if pathSize M004.cfg (insAt M004.cfg 1) = 0 then 0 else weightOffset M004.cfg 1 :=
+  (reported_view E3nnVerif.Cert.TP.C19.M004.introspection_ok 1 0 2).mp (by decide)
+
 /-- M003 (`2x1o+1x2e ⊗ 1x1o → 1x0e+2x1e+1x3o`, four weighted instructions, instructions 1 and 3 into the same block):
     the weights of instruction 2 (slice `[4,5)`, output block 2 = `1x3o`) do not reach component 2 (block 1) -/
 example {env env' : ℕ → ℝ} (hag : AgreeOutsideSlice M003.cfg 2 env env') :
     (interp (K := ℝ) env M003.prog).getD (1 * totalDim M003.cfg.out + 2) 0
       = (interp (K := ℝ) env' M003.prog).getD (1 * totalDim M003.cfg.out + 2) 0 :=
   weights_local E3nnVerif.Cert.TP.C19.M003.introspection_ok (by decide) hag (by decide) (by decide) (by decide)
+
+/-- … in particular overwriting the single weight `w[0,4]` of instruction 2 by any real number -/
+example (env : ℕ → ℝ) (r : ℝ) :
+    (interp (K := ℝ) env M003.prog).getD (1 * totalDim M003.cfg.out + 2) 0
+      = (interp (K := ℝ) (Function.update env (wVar M003.cfg 0 4) r) M003.prog).getD (1 * totalDim M003.cfg.out + 2) 0 := by
+  apply weights_local E3nnVerif.Cert.TP.C19.M003.introspection_ok (kk := 2) (by decide) _ (by decide) (by decide)
+    (by decide)
+  apply agreeOutsideSlice_of_layout (by decide)
+  intro v hv
+  rw [Function.update_of_ne (hv 0 4 (by decide) (by decide))]
 
 example : weightOffset M003.cfg 2 = 4 ∧ pathSize M003.cfg (insAt M003.cfg 2) = 1 ∧ (insAt M003.cfg 2).io = 2 ∧
     (locate M003.cfg.out 2).1 = 1 := by decide
